@@ -73,7 +73,7 @@ def to_tree(node, ids, kc, keys):
             for c in v:
                 out += to_tree(c, ids, kc, keys)
         else:
-            out.append(0)  # a non-node value (e.g. the REMOVE sentinel before the fix)
+            out.append(7)  # a non-node value in a child slot (e.g. a stored REMOVE sentinel): never equals the model
     return out
 
 
